@@ -249,9 +249,11 @@ func runSysFamily(c *vf.Ctx, fam sysFamily, nTLC, nRand int) {
 		}()
 	}
 	total, rejected, dropped, skipped := 0, 0, 0, 0
+	var phases []string
 	scenUsed := map[string]int{}
 	for _, cfg := range fam.cfgs {
 		var prefixes [][]sys.Stim
+		tGen := time.Now()
 		if nTLC > 0 {
 			sysGen(c, cfg, fam.maxRPC, fam.plen, fam.kinds, nTLC, c.Seed, func(s []sys.Stim) { prefixes = append(prefixes, s) })
 		}
@@ -261,6 +263,8 @@ func runSysFamily(c *vf.Ctx, fam sysFamily, nTLC, nRand int) {
 		}
 		var runs []*sysRun
 		views := map[*sysRun]*runView{}
+		genS := time.Since(tGen).Seconds()
+		tExec := time.Now()
 		for i, pre := range prefixes {
 			w := sys.New(cfg)
 			w.Begin()
@@ -324,8 +328,11 @@ func runSysFamily(c *vf.Ctx, fam sysFamily, nTLC, nRand int) {
 			runs = append(runs, r)
 		}
 		total += len(runs)
+		execS := time.Since(tExec).Seconds()
+		tVal := time.Now()
 		rej, val := sysValidate(c, cfg, runs, 8)
 		c.TraceValidated(int64(val))
+		phases = append(phases, fmt.Sprintf("%s: prefixes=%d (tlc %d) gen=%.1fs exec=%.1fs validate=%.1fs rejected=%d", cfgString(cfg), len(prefixes), ntlc, genS, execS, time.Since(tVal).Seconds(), len(rej)))
 		for r, line := range rej {
 			rejected++
 			v := views[r]
@@ -353,6 +360,7 @@ func runSysFamily(c *vf.Ctx, fam sysFamily, nTLC, nRand int) {
 	}
 	dwg.Wait()
 	c.Cov["directed_scenarios_run"] = scenUsed
+	c.Cov["phases"] = phases
 	c.Cov["runs_recorded"] = total
 	c.Cov["runs_rejected_by_trace_validation"] = rejected
 	c.Cov["runs_not_quiescent_dropped"] = dropped
